@@ -27,7 +27,7 @@ func zzAsm(fn string, feature bool, z, x, y *Elt, n uint) {
 	}
 }
 
-//zz: prop=C14 tier=quick backend=lia timeout=300
+//zz: prop=C14 also=C12,C06 tier=quick backend=lia timeout=300
 func ZZ_C14_fp448_asm_add() {
 	feature := zzPick("hasBmi2Adx", 0, 1) == 1
 	x, y, z := zzElt("x"), zzElt("y"), new(Elt)
@@ -36,7 +36,7 @@ func ZZ_C14_fp448_asm_add() {
 	zzAssert(zzWCong(zzWLE(z[:]), want, zzP), "assembly add congruent to x+y mod p")
 }
 
-//zz: prop=C14 tier=quick backend=lia timeout=300
+//zz: prop=C14 also=C12,C06 tier=quick backend=lia timeout=300
 func ZZ_C14_fp448_asm_sub() {
 	x, y, z := zzElt("x"), zzElt("y"), new(Elt)
 	want := zzWSub(zzWLE(x[:]), zzWLE(y[:]))
@@ -44,7 +44,7 @@ func ZZ_C14_fp448_asm_sub() {
 	zzAssert(zzWCong(zzWLE(z[:]), want, zzP), "assembly sub congruent to x-y mod p")
 }
 
-//zz: prop=C14 tier=quick backend=lia timeout=300
+//zz: prop=C14 also=C12,C06 tier=quick backend=lia timeout=300
 func ZZ_C14_fp448_asm_addsub() {
 	x, y := zzElt("x"), zzElt("y")
 	s := zzWAdd(zzWLE(x[:]), zzWLE(y[:]))
